@@ -1642,9 +1642,19 @@ class Compiler:
 
         condition = template("TARGET is not None", TARGET=target, mode="eval")
 
+        emit = "__append(FORMAT % TARGET)"
+        if not node.eq:
+            # An attribute written without a value (``name``) keeps this
+            # form for an empty value; any other value is written
+            # ``name="value"``.
+            attr_format = (node.space + node.name).replace("%", "%%") + \
+                "=" + node.quote + "%s" + node.quote
+            emit = "__append(FORMAT % TARGET if TARGET else BARE)"
+
         body += template(
-            "if CONDITION: __append(FORMAT % TARGET)",
+            "if CONDITION: " + emit,
             FORMAT=ast.Constant(attr_format),
+            BARE=ast.Constant(node.space + node.name),
             TARGET=target,
             CONDITION=condition,
         )
